@@ -28,6 +28,7 @@ import (
 	"strings"
 
 	"github.com/siglens/siglens/pkg/config"
+	"github.com/siglens/siglens/pkg/lookups"
 	"github.com/siglens/siglens/pkg/segment/query/iqr"
 	"github.com/siglens/siglens/pkg/segment/structs"
 	sutils "github.com/siglens/siglens/pkg/segment/utils"
@@ -99,6 +100,10 @@ func (p *inputlookupProcessor) Process(inpIqr *iqr.IQR) (*iqr.IQR, error) {
 
 	if !isCSVFormat(filename) {
 		return nil, fmt.Errorf("inputlookupProcessor.Process: Only .csv and .csv.gz formats are currently supported")
+	}
+
+	if !lookups.IsSafeLookupName(filename) {
+		return nil, fmt.Errorf("inputlookupProcessor.Process: Invalid lookup file name %q", filename)
 	}
 
 	filePath := filepath.Join(config.GetLookupPath(), filename)
